@@ -129,6 +129,8 @@ def rule_patch(repo, tier):
                      'setattr(module, name, original) over the same collection in a finally clause that every exit of the try passes '
                      '(normal, exception at the yield, exception while patching); the yield is inside the try; retain_ltype is used only '
                      'as a context manager / decorator', floor=3)
+    if not repo.has_func(LT, 'retain_ltype') and 'retain_ltype' in repo.module(LT).classes:
+        return _patch_class_form(repo, res, repo.module(LT).classes['retain_ltype'])
     f = repo.func(LT, 'retain_ltype')
     if 'contextmanager' not in ' '.join(f.decorator_names()):
         res.add(Finding('C06.PATCH', f, 'retain_ltype is no longer a contextmanager', construct='decorator'))
@@ -208,6 +210,61 @@ def rule_patch(repo, tier):
                     res.add(Finding('C06.PATCH', g, 'retain_ltype() is called without entering it as a context manager / decorator', node=n))
     if n_use == 0:
         res.notes.append('no user of retain_ltype inside the package besides func.jacrev')
+    return res
+
+
+def _patch_class_form(repo, res, ci):
+    """retain_ltype written as a class with __enter__/__exit__: the slots patched on entry are restored on exit from originals that belong
+    to THIS activation (an instance attribute bound in __init__/__enter__), not from a container shared by all activations - activations
+    nest (jacrev inside `with retain_ltype()`, jacrev of jacrev), and an inner entry that overwrites the outer's saved originals with the
+    outer's wrappers leaves torch patched after the outermost exit"""
+    en, exi = ci.methods.get('__enter__'), ci.methods.get('__exit__')
+    if en is None or exi is None:
+        raise AnalysisError('C06.PATCH: class retain_ltype has no __enter__/__exit__ pair')
+    patches = [c for c in paths.calls_in(en.node) if dotted(c.func) == 'setattr' and len(c.args) == 3]
+    restores = [c for c in paths.calls_in(exi.node) if dotted(c.func) == 'setattr' and len(c.args) == 3]
+    res.inst({'class': ci.fq, 'patching setattr in __enter__': len(patches), 'restoring setattr in __exit__': len(restores)}, ci.fq)
+    if not patches:
+        raise AnalysisError('C06.PATCH: __enter__ of retain_ltype patches nothing')
+    if not restores:
+        res.add(Finding('C06.PATCH', exi, '__exit__ restores none of the slots __enter__ patches', construct='no restore'))
+    # where are the originals kept?
+    class_level = set()
+    for st in ci.node.body:
+        if isinstance(st, (ast.Assign, ast.AnnAssign)):
+            tg = st.targets if isinstance(st, ast.Assign) else [st.target]
+            v = st.value
+            mutable = isinstance(v, (ast.Dict, ast.List, ast.Set)) or (isinstance(v, ast.Call) and (dotted(v.func) or '').split('.')[-1] in
+                                                                      ('dict', 'list', 'set', 'defaultdict', 'OrderedDict', 'deque'))
+            for t in tg:
+                if isinstance(t, ast.Name) and mutable:
+                    class_level.add(t.id)
+    rebound = set()
+    for m in ci.methods.values():
+        for n in ast.walk(m.node):
+            if isinstance(n, ast.Attribute) and isinstance(n.ctx, ast.Store) and dotted(n.value) == 'self':
+                rebound.add(n.attr)
+    stores = []
+    for n in ast.walk(en.node):
+        tgt = None
+        if isinstance(n, ast.Assign):
+            for t in n.targets:
+                if isinstance(t, ast.Subscript) and (dotted(t.value) or '').startswith(('self.', 'cls.', ci.name + '.')):
+                    tgt = dotted(t.value).split('.', 1)[1]
+        elif isinstance(n, ast.Call) and isinstance(n.func, ast.Attribute) and n.func.attr in ('append', 'update', 'setdefault', 'add', 'extend') \
+                and (dotted(n.func.value) or '').startswith(('self.', 'cls.', ci.name + '.')):
+            tgt = dotted(n.func.value).split('.', 1)[1]
+        if tgt is not None:
+            stores.append((n, tgt))
+    for n, tgt in stores:
+        shared = tgt in class_level and tgt not in rebound
+        res.inst({'class': ci.fq, 'originals kept in': 'self.' + tgt, 'shared by all activations': shared}, (ci.fq, tgt))
+        if shared:
+            res.add(Finding('C06.PATCH', en, '`%s` saves the original functions in the class-level container `%s`, shared by every activation: a nested '
+                            'activation overwrites the outer one\'s originals with the outer one\'s wrappers, and after the outermost exit the torch '
+                            'internals stay patched' % (src(n)[:60], tgt), node=n, construct='shared originals|' + tgt))
+    if not stores:
+        res.notes.append('no container store found in __enter__')
     return res
 
 
@@ -422,5 +479,13 @@ def rule_dtype(repo, tier):
     return res
 
 
-def rules(repo, tier):
+def _rules_core(repo, tier):
     return [rule_mut(repo, tier), rule_patch(repo, tier), rule_bcast(repo, tier), rule_wrap(repo, tier), rule_dtype(repo, tier)]
+
+
+def rules(repo, tier):
+    from ..memo import rule_memo
+    return list(_rules_core(repo, tier)) + [rule_memo(repo, 'C06.MEMO', 'history independence: nothing computed from the contents of a tensor argument is kept '
+                                                      'under the identity, address or version of that tensor, in module-level storage, or published from a generator '
+                                                      'before it is complete - a later call with the same object and other contents must not be answered from it',
+                                                      ['pypose.lietensor.lietensor', 'pypose.lietensor.operation', 'pypose.lietensor.basics', 'pypose.lietensor.utils', 'pypose.lietensor.convert'], floor=3)]
